@@ -6,7 +6,7 @@ import json
 from hypothesis import strategies as st
 
 from vlib.core import Outcome, Part
-from vlib import gen_hed, gen_tab, hedenv
+from vlib import fuzz, gen_hed, gen_tab, hedenv
 
 PROPERTY = "C08"
 LEVEL = "exploration"
@@ -317,4 +317,12 @@ def parts(tier):
     q = tier == "quick"
     return [Part("json", oracle_json, strategy=json_strategy, n=2000 if q else 96000),
             Part("valid", oracle_valid, strategy=valid_strategy(), n=600 if q else 24000),
-            Part("fault", oracle_fault, strategy=fault_strategy(), n=1000 if q else 24000)]
+            Part("fault", oracle_fault, strategy=fault_strategy(), n=1000 if q else 24000)] + \
+        ([] if q else [Part("coverage-guided", oracle_json, enumerate_fn=fuzz.make_enum("c08", 40000, 128),
+                            distinct_by_construction=False)])
+
+
+def extra_evidence(tier):
+    return {"coverage_guided_engine": ("atheris campaigns per shard; corpus and objections replayed through the oracle"
+                                       if tier != "quick" and fuzz.available() else
+                                       ("not used in the quick tier" if tier == "quick" else "atheris not installed: part empty"))}
